@@ -24,6 +24,20 @@ theorem C11_set_sound_v2 {α : Type} [DecidableEq α] (merge : α → α → α)
     p.verify merge = true ∧ p.master.root = root ∧ ∀ l ∈ ls, p.contains l = true :=
   verifyV2_sound merge ls p root h
 
+open ExprTree in
+/-- **every reported item is committed under the single returned root**: composing acceptance with the
+soundness of the executable nested verifier (C09): if the returned root is the value of the committed
+tree `t` (leaves not merge values, `merge` injective), every reported item leaf that is not itself a merge
+value is a leaf of `t` -/
+theorem C11_set_committed {α : Type} [DecidableEq α] (merge : α → α → α)
+    (hinj : ∀ a b c d, merge a b = merge c d → a = c ∧ b = d)
+    (parts : List (List α × MapProof α)) (root : α) (h : verifyLegacy merge parts = .ok root)
+    (t : E α) (hr : root = eval merge t) (hT : ∀ a ∈ leaves t, ¬ IsMerge merge a) :
+    ∀ part ∈ parts, ∀ l ∈ part.1, ¬ IsMerge merge l → l ∈ leaves t := by
+  intro part hp l hl hnm
+  obtain ⟨hv, hroot, hc⟩ := (verifyLegacy_sound merge parts root h).2 part hp
+  exact C09.C09_map_exec_sound merge hinj part.2 l hv (hc l hl) t (by rw [hroot, hr]) hT hnm
+
 /-- a response without any certified item is rejected -/
 theorem C11_empty_rejected {α : Type} [DecidableEq α] (merge : α → α → α) :
     verifyLegacy merge ([] : List (List α × MapProof α)) = .error .noCertifiedItem ∧
